@@ -1,7 +1,7 @@
 (* Dispatcher of the model area: component tree -- parse, serialise, walk, used time zones
    (C01 C02 C04 C09 C10 C18 C20).  Definitions only. *)
 Require Import Lib.Base Lib.Chain Gen.Gen_parser Gen.Gen_cal Model.Text Model.Params Model.Fold Model.Contentline
-        Model.Dispatch Model.Tree Model.TreeOps.
+        Model.Dispatch Model.Tree Model.TreeOps Model.UsedTz.
 From Coq Require Import String.
 Local Open Scope string_scope.
 
@@ -148,6 +148,34 @@ Definition dispatch_tree (f : list N) (a : jv) : option jv :=
     Some match a with
     | c => match comp_of c with Some c' => JL (map jpval (used_tzids c')) | None => junsupported end
     end
+  else if is f "tree_used_set" then
+    Some match a with c => match comp_of c with Some c' => jres jstrs (used_set c') | None => junsupported end end
+  else if is f "tree_missing" then
+    Some match a with c => match comp_of c with Some c' => jres jstrs (missing_set c') | None => junsupported end end
+  else if is f "tree_add_missing" then
+    (* [tree; ids the provider knows; iteration order of the missing set (a permutation, by position)] ->
+       [used after; missing after; number of components added; missing after a second call; components added by it] *)
+    Some match a with
+    | JL [c; JL knownl; JL orderl] =>
+        match comp_of c, jv_strs knownl, jv_strs orderl with
+        | Some c', Some kn, Some ord =>
+            let gen := fun z => if mem_str z kn
+                                then Some (Comp (s2l "VTIMEZONE") [(s2l "TZID", One {| v_class := s2l "vText"; v_params := []; v_text := escape_char z |})] [] [])
+                                else None in
+            let order := fun ms : list (list N) => (filter (fun z => mem_str z ms) ord ++ filter (fun z => negb (mem_str z ord)) ms)%list in
+            match add_missing gen order c' with
+            | Ok c1 =>
+                JL [jres jstrs (used_set c1); jres jstrs (missing_set c1);
+                    jnat (List.length (c_subs c1) - List.length (c_subs c'))%nat;
+                    match add_missing gen order c1 with
+                    | Ok c2 => JL [jres jstrs (missing_set c2); jnat (List.length (c_subs c2) - List.length (c_subs c1))%nat]
+                    | e => jres (fun _ => JL []) e
+                    end]
+            | e => jres (fun _ => JL []) e
+            end
+        | _, _, _ => junsupported
+        end
+    | _ => junsupported end
   else if is f "type_key" then
     Some match a with JS n => if all_ascii n then JL [JS (type_key n); match class_name_of_key (type_key n) with Some c => JS c | None => JL [] end] else junsupported | _ => junsupported end
   else if is f "canonsort_keys" then
